@@ -551,6 +551,10 @@ type Case struct {
 	// request ("" = nothing came before). Contexts and their writers are recycled; the judged writer is whichever one the
 	// router hands to the handler, and the statement holds for it regardless of what it was used for before.
 	Prior string `json:"prior,omitempty"`
+	// Reenter: the judged handler belongs to a second router that the first router's handler enters with its own
+	// c.Writer() (a mounted sub-router). The calls are made on the inner writer and judged there; when the inner router
+	// returns, the outer c.Writer() must report the same truth about the one underlying writer.
+	Reenter bool `json:"reenter,omitempty"`
 }
 
 var priors = []string{"", "", "hijack", "body", "flush", "readfrom", "informational"}
@@ -565,6 +569,9 @@ func (c *Case) prefix(i int) string {
 	}
 	if c.Prior != "" {
 		fmt.Fprintf(&sb, "; an earlier request on the router did %q on its writer", c.Prior)
+	}
+	if c.Reenter {
+		sb.WriteString("; the handler runs in a second router entered with the first router's c.Writer()")
 	}
 	sb.WriteString("; calls on c.Writer(): ")
 	for k := 0; k <= i && k < len(c.Calls); k++ {
@@ -597,6 +604,8 @@ type runResult struct {
 	ft     feats
 	// index of the first call at which a ReaderFrom / non-ReaderFrom pair may legitimately part (-1 = never)
 	rfCorner int
+	// Reenter only: the sequence reached that corner between the two stacked writers; judging stopped there
+	reenterCorner bool
 }
 
 func newCore(limit int, capErr bool) (*core, func()) {
@@ -652,10 +661,10 @@ func runSeq(fam *family, c *Case) (res *runResult, err error) {
 	}
 	ran := false
 	var herr error
+	var offered []byte
 	handler := func(fc fox.Context) {
 		ran = true
 		w := fc.Writer()
-		var offered []byte
 		if e := judgeState(w, co, offered); e != nil {
 			herr = fmt.Errorf("underlying writer %q before any call: %v", fam.Name, e)
 			return
@@ -724,6 +733,12 @@ func runSeq(fam *family, c *Case) (res *runResult, err error) {
 				}
 				if !before.Written && call.Data != "" && c.Limit == 0 && res.rfCorner < 0 {
 					res.rfCorner = i
+					if c.Reenter {
+						// the corner described by cornerReason, met between the two stacked writers: the inner one takes the fast path
+						// into the outer one, whose fallback forwards a header ahead of the refused bytes. Not judged (see there).
+						res.reenterCorner = true
+						return
+					}
 				}
 				offered = append(offered, call.Data...)
 				_, _ = w.ReadFrom(&source{data: []byte(call.Data), fail: call.Fail, chunk: call.Chunk, errWith: call.ErrWith})
@@ -789,13 +804,15 @@ func runSeq(fam *family, c *Case) (res *runResult, err error) {
 					bad("%s", m)
 					return
 				}
-				if fam.hj {
-					if co.capErr == nil && (conn != co.conn || brw != co.brw) {
+				if fam.hj && co.capErr == nil {
+					if conn != co.conn || brw != co.brw {
 						bad("Hijack did not return the connection and buffer of the underlying writer")
 						return
 					}
 					stop = true // the connection now belongs to the caller; the writer must not be used any more
 				}
+				// a Hijack that failed - the capability is missing, or the underlying Hijack returned an error - took nothing
+				// over: the response still goes through the writer and the calls that follow are judged as before
 			default:
 				bad("unknown op %q in case", call.Op)
 				return
@@ -821,7 +838,25 @@ func runSeq(fam *family, c *Case) (res *runResult, err error) {
 			res.judged = i + 1
 		}
 	}
-	if _, e := f.Handle(http.MethodGet, "/x", handler); e != nil {
+	judged := fox.HandlerFunc(handler)
+	if c.Reenter {
+		f2, e := fox.New()
+		if e != nil {
+			return nil, fmt.Errorf("fox.New: %v", e)
+		}
+		if _, e := f2.Handle(http.MethodGet, "/x", handler); e != nil {
+			return nil, fmt.Errorf("Handle: %v", e)
+		}
+		judged = func(fc fox.Context) {
+			f2.ServeHTTP(fc.Writer(), fc.Request())
+			if herr == nil && !res.reenterCorner {
+				if e := judgeState(fc.Writer(), co, offered); e != nil {
+					herr = fmt.Errorf("%s: the handler had passed its c.Writer() to a second router's ServeHTTP, whose handler made these calls; afterwards, on the outer context: %v", c.prefix(len(c.Calls)), e)
+				}
+			}
+		}
+	}
+	if _, e := f.Handle(http.MethodGet, "/x", judged); e != nil {
 		return nil, fmt.Errorf("Handle: %v", e)
 	}
 	if c.Prior != "" {
@@ -927,6 +962,12 @@ func classify(c *Case, fam *family, res *runResult) {
 	if c.Prior != "" {
 		stats.Class("recycled-context-after:" + c.Prior)
 	}
+	if c.Reenter {
+		stats.Class("calls-made-inside-a-second-router-entered-with-c.Writer()")
+		if res.reenterCorner {
+			stats.Excluded(cornerReason)
+		}
+	}
 	ft := res.ft
 	for name, on := range map[string]bool{
 		"feat:readfrom": ft.readFrom, "feat:partly-accepted-write": ft.partial, "feat:failing-source": ft.failingSource,
@@ -1006,6 +1047,7 @@ func genCase(t *rapid.T) *Case {
 		c.Calls = append(c.Calls, call)
 	}
 	c.Prior = gen.Pick(t, priors, "prior")
+	c.Reenter = gen.Chance(t, 1, 5, "reenter")
 	if gen.Chance(t, 1, 8, "hijack") && len(c.Calls) < 8 {
 		// anywhere in the sequence: where the writer cannot be hijacked the call fails and the rest goes on as before
 		at := gen.IntR(t, 0, len(c.Calls), "hijackat")
@@ -1072,18 +1114,19 @@ func enumerate(t *testing.T, alpha []Call, maxLen int, lims []int, capErrs []boo
 			}
 			{
 				for _, fam := range families {
-					if hijackInside && fam.hj {
-						// a successful Hijack ends the writer's life: nothing after it is judged. On a writer without that
-						// capability Hijack fails with ErrNotSupported and the calls that follow behave as if it had not been made.
-						continue
-					}
 					for _, lim := range lims {
 						for _, ce := range capErrs {
+							if hijackInside && fam.hj && !ce {
+								// a successful Hijack ends the writer's life: nothing after it is judged. Where Hijack fails (no such
+								// capability, or the underlying Hijack returns an error) the calls that follow behave as if it had
+								// not been made.
+								continue
+							}
 							*counter++
 							if *counter%shards != shard {
 								continue
 							}
-							c := &Case{Writer: fam.Name, Limit: lim, CapErr: ce, Calls: calls, Prior: priors[*counter%len(priors)]}
+							c := &Case{Writer: fam.Name, Limit: lim, CapErr: ce, Calls: calls, Prior: priors[*counter%len(priors)], Reenter: *counter%5 == 3}
 							stats.Eval()
 							if *counter%20011 == 1 {
 								stats.Sample(c)
